@@ -974,7 +974,7 @@ def stub_update_in_memory_cache(interp, b):
 
 class UpdateCache(PContract):
     target = f"{PRJ}.Project.update_cache"
-    properties = ("C08", "C10")
+    properties = ("C08", "C09", "C10")
     shard_bits = 2
     callees = {f"{PRJ}.Project._read_cache": stub_read_cache, f"{PRJ}.Project._update_in_memory_cache": stub_update_in_memory_cache}
 
